@@ -12,3 +12,7 @@ import (
 func ZZNewHandler(tok *tokencache.Cache, cookie []byte, shutdown func()) http.Handler {
 	return &handler{token: tok, cookie: cookie, shutdown: shutdown}
 }
+
+// ZZHealthCheck runs the worker's own token health check loop (it ends the
+// worker through the shutdown function when the token stops answering).
+func ZZHealthCheck(h http.Handler) { h.(*handler).healthCheck() }
